@@ -161,6 +161,27 @@ fn scripts(seed: u64, count: usize, no_type1: bool) -> Vec<Vec<Op>> {
                     Op::Send { m: Msg { ts: t2, ty: 9, msid: 1, data: payload(l, 2) }, force: false, dropp: false },
                     Op::Send { m: Msg { ts: t2.wrapping_add(t2.wrapping_sub(t1)), ty: 9, msid: 1, data: payload(l, 3) }, force: false, dropp: false }]);
     } } }
+    // constant-cadence, constant-size runs on one chunk stream (these are the histories in which format 3 starts new
+    // messages), with every pattern of droppable flags and a forced-uncompressed message at every position
+    for &t0 in &[0u32, 1000, 0xFFFFFF - 46, 0xFFFFFFF0] { for &step in &[0u32, 23, 0xFFFFFF] { for &l in &[0usize, 16, 128, 300] {
+        for mask in 0..32u32 {
+            let mut sc = vec![];
+            for k in 0..5u32 { sc.push(Op::Send { m: Msg { ts: t0.wrapping_add(step.wrapping_mul(k)), ty: 8, msid: 1, data: payload(l, k as u8) }, force: false, dropp: (mask >> k) & 1 == 1 }); }
+            sc.push(Op::Send { m: Msg { ts: t0.wrapping_add(step.wrapping_mul(5)).wrapping_add(7), ty: 8, msid: 1, data: payload(l, 9) }, force: false, dropp: false });
+            v.push(sc);
+        }
+        for fpos in 0..4usize {
+            let mut sc = vec![];
+            for k in 0..5u32 { sc.push(Op::Send { m: Msg { ts: t0.wrapping_add(step.wrapping_mul(k)).wrapping_add(if k as usize > fpos { 5 } else { 0 }), ty: 9, msid: if k as usize == fpos { 2 } else { 1 }, data: payload(l + (k as usize == fpos) as usize, k as u8) }, force: k as usize == fpos, dropp: false }); }
+            v.push(sc);
+        }
+    } } }
+    // interleaved chunk streams: droppable video, non-droppable audio, video again
+    for mask in 0..8u32 {
+        let mut sc = vec![];
+        for k in 0..6u32 { let video = k % 2 == 0; sc.push(Op::Send { m: Msg { ts: 40 * k, ty: if video { 9 } else { 8 }, msid: 1, data: payload(if video { 200 } else { 16 }, k as u8) }, force: false, dropp: video && (mask >> (k / 2)) & 1 == 1 }); }
+        v.push(sc);
+    }
     for _ in 0..count { let n = 2 + (rng.next() % 6) as usize; v.push(gen_script(&mut rng, n, true)); }
     let _ = no_type1;
     v
